@@ -1,0 +1,6 @@
+//go:build verif
+
+package result
+
+// VerifCalculateJitter calls the real calculateJitter.
+func VerifCalculateJitter(rtts []float64) float64 { return calculateJitter(rtts) }
